@@ -16,7 +16,8 @@ RULE = ("argument tuples with pairwise squared-mass ratios in [1e-6,1e6]; modes:
         "within 1e-12..1e-1, one/two arguments within 1e-12..1e-1 of 1, exact equality, exact zeros, permutations, common "
         "scale factor; difference quotients (FPZ, FSZ, FCWl, FCWu, FCWd) only at exactly equal mass scales or >= 1e-3 apart; "
         "FCWu/FCWd/f_CSu/f_CSd on physical quark-mass combinations (PDG values +-20 %) with m_H+ in [50,5000] GeV incl. the "
-        "thresholds m_H+ = m_u +- m_d. Non-trivial = tuple selecting a non-generic branch (near-degenerate pair/triple, "
+        "thresholds m_H+ = m_u +- m_d (exactly, to a few ulps, and 1e-12..1e-2 away); further modes: nearly equal pair that sits "
+        "near 1, exactly degenerate pair far below / above the third argument, doubly hierarchical tuples, domain corners. Non-trivial = tuple selecting a non-generic branch (near-degenerate pair/triple, "
         "argument near 1, zero argument, Kaellen function within 1e-6 of zero, tiny ratio, all arguments at an end of the domain).")
 ASSUMPTIONS = [
     "reference: mpmath evaluation (100 digits) of the definitions in /repo/math/ffunctions.m and the cited papers; "
